@@ -8,11 +8,13 @@ import (
 	"io"
 	mrand "math/rand"
 	"os"
+	"os/exec"
 	"path/filepath"
 	"runtime"
 	"runtime/pprof"
 	"sort"
 	"strings"
+	"syscall"
 	"testing"
 	"testing/synctest"
 	"time"
@@ -41,6 +43,11 @@ type Job struct {
 	LogDump      bool    `json:"log_dump"`
 	// Known lists "class|signature" of recorded findings: they are reported but not shrunk.
 	Known []string `json:"known,omitempty"`
+	// ShrinkExternal: minimise ReplayTape for violation ReplayClass/ReplaySig, running every candidate in a fresh
+	// child process of this binary (for engines whose failing runs cannot be repeated inside one process).
+	ShrinkExternal bool   `json:"shrink_external,omitempty"`
+	ReplaySig      string `json:"replay_sig,omitempty"`
+	ShrinkWallS    float64 `json:"shrink_wall_s,omitempty"`
 }
 
 // Found is one violation with everything needed to replay it.
@@ -78,6 +85,8 @@ type Summary struct {
 	LogHashes    map[string]string `json:"log_hashes,omitempty"` // run index -> log hash (determinism self-test)
 	ReplayLog    []string         `json:"replay_log,omitempty"`
 	Notes        []string         `json:"notes,omitempty"`
+	// NextIndex is the run index at which a fresh worker should continue after this one left early (tainted).
+	NextIndex int `json:"next_index,omitempty"`
 }
 
 // Engine runs one simulation.  It must derive every choice from c.T.
@@ -153,7 +162,7 @@ func shortStack(s string, n int) string {
 }
 
 // RunOne executes one simulation run in its own bubble and scratch directory.
-func RunOne(t *testing.T, eng Engine, job *Job, runSeed uint64, tape *Tape, idx int, keepLog bool) (out runOutcome) {
+func RunOne(t *testing.T, eng Engine, job *Job, runSeed uint64, tape *Tape, idx int, keepLog bool, bail func(c *Ctx)) (out runOutcome) {
 	dir := filepath.Join(job.Scratch, fmt.Sprintf("r%d", idx))
 	_ = os.RemoveAll(dir)
 	if err := os.MkdirAll(dir, 0o700); err != nil {
@@ -164,6 +173,13 @@ func RunOne(t *testing.T, eng Engine, job *Job, runSeed uint64, tape *Tape, idx 
 	c := NewCtx(job.Property, job.Profile, job.Tier, runSeed, tape, dir)
 	c.KeepLog = keepLog
 	c.Replay = job.ReplayTape != nil
+	if bail != nil {
+		c.Bail = func() { bail(c) }
+	}
+	c.Known = map[string]bool{}
+	for _, k := range job.Known {
+		c.Known[k] = true
+	}
 	out.c = c
 	SeedEntropy(runSeed)
 	body := func() {
@@ -185,7 +201,11 @@ func RunOne(t *testing.T, eng Engine, job *Job, runSeed uint64, tape *Tape, idx 
 		}()
 		eng.Run(c)
 	}
-	func() {
+	// The bubble is entered from a goroutine of its own: when the race detector has reported something during
+	// the run, synctest.Test ends with t.FailNow(), which must only end that goroutine, not the worker.
+	done := make(chan struct{})
+	go func() {
+		defer close(done)
 		defer func() {
 			if r := recover(); r != nil {
 				// end-of-bubble deadlock panic: goroutines were left blocked.
@@ -202,6 +222,7 @@ func RunOne(t *testing.T, eng Engine, job *Job, runSeed uint64, tape *Tape, idx 
 			synctest.Test(t, func(t *testing.T) { body() })
 		}
 	}()
+	<-done
 	return
 }
 
@@ -255,7 +276,7 @@ func WorkerMain(t *testing.T, engines map[string]Engine) {
 	fps := map[uint64]struct{}{}
 	nts := map[uint64]struct{}{}
 	sts := map[uint64]struct{}{}
-	start := time.Now() // wall clock of the *driver loop* only; never visible to a run
+	start := wallNow() // wall clock of the *driver loop* only; never visible to a run
 	if pf := os.Getenv("VERIF_CPUPROFILE"); pf != "" {
 		if f, err := os.Create(pf); err == nil {
 			_ = pprof.StartCPUProfile(f)
@@ -263,7 +284,7 @@ func WorkerMain(t *testing.T, engines map[string]Engine) {
 	}
 	finish := func(code int) {
 		pprof.StopCPUProfile()
-		sum.WallS = time.Since(start).Seconds()
+		sum.WallS = wallNow().Sub(start).Seconds()
 		sum.Fingerprints = keys(fps)
 		sum.Nontrivial = keys(nts)
 		sum.States = keys(sts)
@@ -277,6 +298,7 @@ func WorkerMain(t *testing.T, engines map[string]Engine) {
 			os.Exit(code)
 		}
 	}
+	knownSeen := map[string]bool{}
 	account := func(c *Ctx) {
 		sum.Runs++
 		sum.Steps += int64(c.Step)
@@ -301,13 +323,34 @@ func WorkerMain(t *testing.T, engines map[string]Engine) {
 		if len(sum.Samples) < 3 && len(c.Sample) > 0 {
 			sum.Samples = append(sum.Samples, c.Sample)
 		}
+		for _, k := range c.KnownHits {
+			if !knownSeen[k.Class+"|"+k.Signature] {
+				knownSeen[k.Class+"|"+k.Signature] = true
+				sum.Found = append(sum.Found, Found{Violation: k, RunSeed: c.Seed, Tape: trimZeros(c.T.Rec), OrigLen: len(c.T.Rec),
+					LogHash: c.LogHash(), LogTail: tail(c.LogLines, 30), Knobs: c.Knobs, Counters: c.Counters})
+			}
+		}
 	}
 
 	// ---- replay mode -------------------------------------------------
 	if job.ReplayTape != nil {
+		if job.ShrinkExternal {
+			shrinkExternal(&job, sum)
+			finish(0)
+		}
 		tape := ReplayTape(job.ReplayTape)
 		tape.Trace = true
-		o := RunOne(t, eng, &job, job.ReplaySeed, tape, 0, true)
+		o := RunOne(t, eng, &job, job.ReplaySeed, tape, 0, true, func(c *Ctx) {
+			account(c)
+			sum.ReplayLog = c.LogLines
+			if c.Viol != nil {
+				sum.Found = append(sum.Found, Found{Violation: *c.Viol, RunSeed: job.ReplaySeed, Tape: trimZeros(c.T.Rec),
+					LogHash: c.LogHash(), LogTail: tail(c.LogLines, 60), Knobs: c.Knobs, Counters: c.Counters})
+			}
+			sum.LogHashes = map[string]string{"0": c.LogHash()}
+			sum.Tainted = true
+			finish(0)
+		})
 		if o.harness != "" {
 			sum.HarnessError = o.harness
 			finish(2)
@@ -329,12 +372,24 @@ func WorkerMain(t *testing.T, engines map[string]Engine) {
 		if job.MaxRuns > 0 && idx >= job.MaxRuns {
 			break
 		}
-		if job.BudgetS > 0 && time.Since(start).Seconds() > job.BudgetS {
+		if job.BudgetS > 0 && wallNow().Sub(start).Seconds() > job.BudgetS {
 			break
 		}
 		runSeed := Mix(MixStr(job.Seed, job.Property+"/"+job.Profile), uint64(idx))
 		tape := NewTape(runSeed, job.TapeLimit)
-		o := RunOne(t, eng, &job, runSeed, tape, idx, false)
+		o := RunOne(t, eng, &job, runSeed, tape, idx, false, func(c *Ctx) {
+			account(c)
+			if job.LogDump {
+				sum.LogHashes[fmt.Sprint(idx)] = c.LogHash()
+			}
+			if c.Viol != nil {
+				sum.Found = append(sum.Found, Found{Violation: *c.Viol, RunIndex: idx, RunSeed: runSeed, Tape: trimZeros(c.T.Rec), OrigLen: len(c.T.Rec),
+					LogHash: c.LogHash(), LogTail: tail(c.LogLines, 60), Knobs: c.Knobs, Counters: c.Counters})
+			}
+			sum.Tainted = true
+			sum.NextIndex = idx + job.Stride
+			finish(0)
+		})
 		if o.harness != "" {
 			sum.HarnessError = fmt.Sprintf("run %d seed %d: %s", idx, runSeed, o.harness)
 			finish(2)
@@ -346,6 +401,7 @@ func WorkerMain(t *testing.T, engines map[string]Engine) {
 		if o.c.Viol == nil {
 			if o.tainted {
 				sum.Tainted = true
+				sum.NextIndex = idx + job.Stride
 				finish(0)
 			}
 			continue
@@ -354,6 +410,7 @@ func WorkerMain(t *testing.T, engines map[string]Engine) {
 		if seenSig[v.Class+"|"+v.Signature] {
 			if o.tainted {
 				sum.Tainted = true
+				sum.NextIndex = idx + job.Stride
 				finish(0)
 			}
 			continue
@@ -379,7 +436,7 @@ func WorkerMain(t *testing.T, engines map[string]Engine) {
 				if tainted || time.Since(shrinkStart).Seconds() > shrinkLimit {
 					return false, nil
 				}
-				so := RunOne(t, eng, &job, runSeed, ReplayTape(cand), idx, false)
+				so := RunOne(t, eng, &job, runSeed, ReplayTape(cand), idx, false, nil)
 				if so.tainted {
 					tainted = true
 				}
@@ -404,6 +461,7 @@ func WorkerMain(t *testing.T, engines map[string]Engine) {
 		sum.Found = append(sum.Found, f)
 		if o.tainted {
 			sum.Tainted = true
+			sum.NextIndex = idx + job.Stride
 			finish(0)
 		}
 		if len(sum.Found) >= 6 {
@@ -427,4 +485,82 @@ func tail(l []string, n int) []string {
 		return l[len(l)-n:]
 	}
 	return l
+}
+
+// shrinkExternal minimises job.ReplayTape while class/signature persist; every candidate runs in a fresh child
+// process of this binary (replay mode).  The result is sum.Found[0] with the minimised tape.
+func shrinkExternal(job *Job, sum *Summary) {
+	start := time.Now() // wall clock of the driver loop only
+	limit := job.ShrinkWallS
+	if limit <= 0 {
+		limit = 120
+	}
+	n := 0
+	good := map[string]Found{}
+	test := func(cand []uint64) (bool, []uint64) {
+		if time.Since(start).Seconds() > limit {
+			return false, nil
+		}
+		n++
+		out := filepath.Join(job.Scratch, fmt.Sprintf("shrink-%d.json", n))
+		jf := filepath.Join(job.Scratch, fmt.Sprintf("shrink-job-%d.json", n))
+		cj := Job{Property: job.Property, Profile: job.Profile, Tier: job.Tier, Stride: 1, Out: out, Scratch: job.Scratch,
+			ReplayTape: append([]uint64{0}[:0], cand...), ReplaySeed: job.ReplaySeed, TapeLimit: job.TapeLimit}
+		if len(cj.ReplayTape) == 0 {
+			cj.ReplayTape = []uint64{0}
+		}
+		b, _ := json.Marshal(cj)
+		if err := os.WriteFile(jf, b, 0o644); err != nil {
+			return false, nil
+		}
+		cmd := exec.Command(os.Args[0], "-test.run", "^TestWorker$", "-test.timeout", "0")
+		cmd.Env = append(os.Environ(), "VERIF_JOB="+jf)
+		done := make(chan error, 1)
+		if err := cmd.Start(); err != nil {
+			return false, nil
+		}
+		go func() { done <- cmd.Wait() }()
+		select {
+		case <-done:
+		case <-time.After(120 * time.Second):
+			_ = cmd.Process.Kill()
+			<-done
+			return false, nil
+		}
+		raw, err := os.ReadFile(out)
+		_ = os.Remove(out)
+		_ = os.Remove(jf)
+		if err != nil {
+			return false, nil
+		}
+		var cs Summary
+		if json.Unmarshal(raw, &cs) != nil || cs.HarnessError != "" || len(cs.Found) == 0 {
+			return false, nil
+		}
+		f := cs.Found[0]
+		if f.Violation.Class != job.ReplayClass || f.Violation.Signature != job.ReplaySig {
+			return false, nil
+		}
+		good[tapeKey(f.Tape)] = f
+		return true, f.Tape
+	}
+	min, used := Shrink(job.ReplayTape, test, job.ShrinkBudget)
+	if f, ok := good[tapeKey(min)]; ok {
+		f.Tape = min
+		f.Minimised = true
+		f.ShrinkRuns = used
+		f.OrigLen = len(job.ReplayTape)
+		sum.Found = append(sum.Found, f)
+	}
+}
+
+func tapeKey(t []uint64) string {
+	return fmt.Sprint(trimZeros(t))
+}
+
+// wallNow reads the real clock even when called from inside a synctest bubble (where time.Now is the fake clock).
+func wallNow() time.Time {
+	var tv syscall.Timeval
+	_ = syscall.Gettimeofday(&tv)
+	return time.Unix(tv.Sec, tv.Usec*1000)
 }
